@@ -148,9 +148,6 @@ package security
 // ---------------------------------------------------------------------------
 // C16: the dataset list served to a non-admin client holds only datasets whose path /datasets/<name> the client's own
 // access controls grant for reading (decision: IsGranted above), each decided for its own name
-//@ assumed (*ServiceCore).GetAccessControls
-//@   pure
-//@   ensures forall i int :: 0 <= i && i < len(result) ==> result[i] != nil
 //@ unit (*ServiceCore).FilterDatasets
 //@   prop C16
 //@   ghost aclG slice
